@@ -249,9 +249,73 @@ def pending_carry_then_zero_limb(rng, n, count):
     return out
 
 
+def sq_narrow_bad(a, m, n):
+    """Would the NARROW carry handling of square_redc (the branch that assumes carry_hi = carry_outer = 0 and that
+    carry_lo + carry fits one limb) go wrong for this input?  A plain transcription of the squaring recurrence with
+    exact integers, used only to aim the generator (it decides nothing)."""
+    M = B - 1
+    inv = (-pow(m, -1, B)) % B
+    al = [(a >> (64 * i)) & M for i in range(n)]
+    ml = [(m >> (64 * i)) & M for i in range(n)]
+    res = [0] * n
+    co = 0
+    bad = False
+    for i in range(n):
+        t = al[i] * al[i] + res[i]
+        res[i], clo, chi = t & M, t >> 64, 0
+        for j in range(i + 1, n):
+            t = 2 * al[i] * al[j] + res[j] + clo + (chi << 64)
+            res[j], clo, chi = t & M, (t >> 64) & M, t >> 128
+        mm = (res[0] * inv) & M
+        c = (mm * ml[0] + res[0]) >> 64
+        for j in range(1, n):
+            t = ml[j] * mm + res[j] + c
+            res[j - 1], c = t & M, t >> 64
+        bad = bad or chi != 0 or co != 0 or clo + c >= B
+        wide = co + clo + (chi << 64) + c
+        res[n - 1], co = wide & M, wide >> 64
+    return bad
+
+
+def square_threshold_cases(ns):
+    """Operands at the exact edge of the region in which square_redc may use its narrow carry handling.  In round 0 the
+    two carries that meet in the top limb are about 2 a_0 t / 2^64 and mm t / 2^64 (t = top limb of the modulus, mm the
+    reduction factor), so the narrow path first overflows at t = ceil(2^64 / 3) -- provided a_0 and mm are both within a
+    few units of 2^64.  mm = 2^64 - 1 is FORCED by choosing the modulus' low limb equal to the low limb of a_0^2
+    (then result[0] = m_0 and m_0 * inv = -1), a_0 = 2^64 - (2j + 1), all middle limbs ones.  The code's own threshold
+    (2^62 - 1) is far below this edge; a threshold moved above it (seed T7-B: 0x5600...) is wrong exactly from here on."""
+    M = B - 1
+    t3 = (B + 2) // 3
+    out = []
+    for n in ns:
+        for d in (-2, -1, 0, 1, 2, 3, 8, 100, 1 << 20, 1 << 40, 1 << 52, 1 << 56, 1 << 58):
+            for j in range(0, 6):
+                top = t3 + d
+                a0, m0 = B - (2 * j + 1), ((2 * j + 1) ** 2) % B
+                if n == 2:
+                    al, ml = [a0, top - 1], [m0, top]
+                else:
+                    al, ml = [a0] + [M] * (n - 3) + [M - 1, top], [m0] + [M] * (n - 2) + [top]
+                a = sum(x << (64 * i) for i, x in enumerate(al))
+                m = sum(x << (64 * i) for i, x in enumerate(ml))
+                if 0 < a < m and m % 2 == 1:
+                    out.append((m, a, sq_narrow_bad(a, m, n)))
+    return out
+
+
 def scenarios(tier, rng):
     quick = tier == "quick"
     kern, math = [], []
+    for m, a, aimed in square_threshold_cases((2, 3, 4, 6) if quick else (2, 3, 4, 5, 6, 8, 12, 16)):
+        n = (m.bit_length() + 63) // 64
+        inv = (-pow(m, -1, B)) % B
+        if quick and not aimed and (a + m) % 3:
+            continue
+        kern.append({"g": "kern", "op": "kredc", "a": slice_bytes(a, n), "b": slice_bytes(m - a, n), "m": slice_bytes(m, n),
+                     "inv": tobytes(inv), "w": W.redc_witness(a, m - a, m, n), "aim": "square_narrow_edge" if aimed else "square_below_edge"})
+        if 64 * n in WIDTHS:
+            math.append({"g": "math", "op": "redc", "bits": 64 * n, "a": tobytes(a), "b": tobytes(m - a), "m": tobytes(m),
+                         "inv": tobytes(inv), "w": W.redc_witness(a, m - a, m, n), "aim": "square_narrow_edge"})
     for n in (2, 3, 4, 6):
         for m, a, b in pending_carry_then_zero_limb(rng, n, 6 if quick else 60):
             inv = (-pow(m, -1, B)) % B
